@@ -125,26 +125,144 @@ theorem Sorted_append {a b : List KV} :
     Sorted (a ++ b) ↔ Sorted a ∧ Sorted b ∧ ∀ x ∈ a, ∀ y ∈ b, x.1 < y.1 := by
   unfold Sorted; exact List.pairwise_append
 
+/-! ### the leaf builder state describes the open leaf -/
+
+theorem commonPrefix_prefix_left : ∀ (a b : Key), commonPrefix a b <+: a
+  | [], _ => by simp [commonPrefix]
+  | _ :: _, [] => by simp [commonPrefix]
+  | x :: a, y :: b => by
+    simp only [commonPrefix]
+    by_cases h : x = y
+    · simp only [h, if_true]
+      have := commonPrefix_prefix_left a b
+      subst h
+      exact (List.prefix_cons_inj x).mpr this
+    · simp [h]
+
+theorem commonPrefix_prefix_right : ∀ (a b : Key), commonPrefix a b <+: b
+  | [], _ => by simp [commonPrefix]
+  | _ :: _, [] => by simp [commonPrefix]
+  | x :: a, y :: b => by
+    simp only [commonPrefix]
+    by_cases h : x = y
+    · simp only [h, if_true]
+      exact (List.prefix_cons_inj y).mpr (commonPrefix_prefix_right a b)
+    · simp [h]
+
+/-- `b` is the builder state after adding the keys of `cur` (newest first) -/
+def LBInv (b : LB) (cur : List KV) : Prop :=
+  b.n = cur.length ∧ b.fieldsLen = (cur.map fun e => e.1.length).sum ∧
+    (∀ e ∈ cur, b.pre <+: e.1) ∧ (cur = [] → b.pre = [])
+
+theorem LBInv_empty : LBInv {} [] := by simp [LBInv]
+
+theorem LBInv_add {b : LB} {cur : List KV} (h : LBInv b cur) (k : Key) (o : Nat) :
+    LBInv (b.add k) ((k, o) :: cur) := by
+  obtain ⟨h1, h2, h3, _⟩ := h
+  refine ⟨by simp [LB.add, h1], by simp [LB.add, h2]; omega, ?_, by simp⟩
+  intro e he
+  simp only [LB.add, LB.newPre]
+  by_cases h0 : b.n = 0
+  · simp only [h0, if_true]
+    have : cur = [] := by
+      cases cur with
+      | nil => rfl
+      | cons _ _ => simp [h0] at h1
+    subst this
+    simp only [List.mem_singleton] at he
+    subst he
+    exact List.prefix_refl _
+  · simp only [h0, if_false]
+    rcases List.mem_cons.mp he with rfl | he'
+    · exact commonPrefix_prefix_right _ _
+    · exact List.IsPrefix.trans (commonPrefix_prefix_left _ _) (h3 e he')
+
+theorem tryAdd_eq_add {split : Nat} {b b' : LB} {k : Key} (h : b.tryAdd split k = some b') :
+    b' = b.add k := by
+  unfold LB.tryAdd at h
+  simp only at h
+  split at h
+  · cases h
+  · split at h
+    · cases h
+    · simp only [Option.some.injEq] at h; exact h.symm
+
+theorem sum_sub_pre (p : Nat) : ∀ (es : List KV), (∀ e ∈ es, p ≤ e.1.length) →
+    (es.map fun e => e.1.length - p).sum + es.length * p = (es.map fun e => e.1.length).sum := by
+  intro es
+  induction es with
+  | nil => simp
+  | cons x xs ih =>
+    intro h
+    have h1 := h x List.mem_cons_self
+    have := ih (fun e he => h e (List.mem_cons_of_mem _ he))
+    simp only [List.map_cons, List.sum_cons, List.length_cons, Nat.add_mul, Nat.one_mul]
+    omega
+
+theorem finish_size {b : LB} {cur : List KV} (h : LBInv b cur) :
+    (b.finish cur.reverse).size = b.size := by
+  obtain ⟨h1, h2, h3, _⟩ := h
+  have hlen : ∀ e ∈ cur.reverse, min 255 b.pre.length ≤ e.1.length := by
+    intro e he
+    have := (h3 e (List.mem_reverse.mp he)).length_le
+    omega
+  have hsum := sum_sub_pre (min 255 b.pre.length) cur.reverse hlen
+  have hsum0 := sum_sub_pre 0 cur.reverse (fun _ _ => Nat.zero_le _)
+  simp only [List.map_reverse, List.sum_reverse, List.length_reverse] at hsum hsum0
+  simp only [LB.finish, Leaf.size, LB.size, leafSize, List.length_reverse, List.map_reverse,
+    List.sum_reverse]
+  by_cases hn : b.n = 1
+  · simp only [hn, if_true]
+    rw [h2]
+    have : cur.length = 1 := by omega
+    simp only [this] at hsum hsum0 ⊢
+    simp only [Nat.sub_zero] at hsum0 ⊢
+    omega
+  · simp only [hn, if_false]
+    rw [h2, h1]
+    rw [Nat.mul_comm cur.length] at hsum
+    rw [Nat.mul_comm cur.length]
+    omega
+
+theorem finish_preOK {b : LB} {cur : List KV} (h : LBInv b cur) :
+    (b.finish cur.reverse).PreOK := by
+  obtain ⟨h1, _, h3, h4⟩ := h
+  simp only [Leaf.PreOK, LB.finish]
+  refine ⟨by split <;> omega, ?_, ?_⟩
+  · intro he
+    have : cur = [] := by simpa using he
+    rw [h4 this]; simp
+  by_cases hn : b.n = 1
+  · simp only [hn, if_true]
+    exact ⟨[], rfl, fun _ _ => List.nil_prefix⟩
+  · simp only [hn, if_false]
+    refine ⟨b.pre.take 255, by simp [List.length_take], ?_⟩
+    intro e he
+    exact List.IsPrefix.trans (List.take_prefix _ _) (h3 e (List.mem_reverse.mp he))
+
 /-- the leaf level: a sorted input gives a bounded row of leaves -/
 theorem buildLeaves_bounded (split : Nat) : ∀ (kvs : List KV) (b : LB) (cur : List KV)
-    (lo : Option Key), Sorted (cur.reverse ++ kvs) → Range lo none (cur.reverse ++ kvs) →
-    (cur = [] → lo = none) →
+    (lo : Option Key), LBInv b cur → Sorted (cur.reverse ++ kvs) →
+    Range lo none (cur.reverse ++ kvs) → (cur = [] → lo = none) →
     RowB LeafB lo none (buildLeaves split kvs b cur).1 (buildLeaves split kvs b cur).2 := by
   intro kvs
   induction kvs with
   | nil =>
-    intro b cur lo hs hr _
-    simp only [buildLeaves, RowB, LeafB, LB.finish]
+    intro b cur lo hb hs hr _
+    simp only [buildLeaves, RowB, LeafB]
     simp only [List.append_nil] at hs hr
-    exact ⟨hs, hr⟩
+    exact ⟨hs, hr, finish_preOK hb⟩
   | cons x r ih =>
     obtain ⟨k, o⟩ := x
-    intro b cur lo hs hr hlo
+    intro b cur lo hb hs hr hlo
     simp only [buildLeaves]
     cases ht : b.tryAdd split k with
     | some b' =>
       simp only
+      have := tryAdd_eq_add ht
+      subst this
       apply ih
+      · exact LBInv_add hb k o
       · simpa using hs
       · simpa using hr
       · intro h; cases h
@@ -169,7 +287,7 @@ theorem buildLeaves_bounded (split : Nat) : ∀ (kvs : List KV) (b : LB) (cur : 
             exact klt_trans this hsep
           · exact hsep
       have hle : sepKey (headKey cur) k ≤ k := take_kle _ _
-      refine ⟨⟨hs1, fun e he => ⟨(hr1 e he).1, hprev e he⟩⟩, ?_, trivial, ?_⟩
+      refine ⟨⟨hs1, fun e he => ⟨(hr1 e he).1, hprev e he⟩, finish_preOK hb⟩, ?_, trivial, ?_⟩
       · -- lo < sep
         cases cur with
         | nil => rw [hlo rfl]; trivial
@@ -180,6 +298,7 @@ theorem buildLeaves_bounded (split : Nat) : ∀ (kvs : List KV) (b : LB) (cur : 
             have h1 : l ≤ p.1 := (hr1 p (by simp)).1
             exact klt_of_le_of_lt h1 (hprev p (by simp))
       · apply ih
+        · exact LBInv_add LBInv_empty k o
         · simpa using hs2
         · intro e he
           simp only [List.reverse_cons, List.reverse_nil, List.nil_append, List.singleton_append,
@@ -196,7 +315,7 @@ theorem bulkBuild_bounded (split : Nat) (kvs : List KV) (hs : Sorted kvs) :
   unfold bulkBuild
   simp only
   apply growUp_bounded
-  exact buildLeaves_bounded split kvs {} [] none (by simpa using hs)
+  exact buildLeaves_bounded split kvs {} [] none LBInv_empty (by simpa using hs)
     (fun e _ => ⟨trivial, trivial⟩) (fun _ => rfl)
 
 end Gsu.Btree
